@@ -264,7 +264,7 @@ def run_C03(ctx):
     # distributions into several virtual rows of one trough column (one real well): each dispense alone may fit while
     # their sum overflows; whatever is refused must not be in the worklist (EVO numbers the virtual rows separately)
     prof = {"p_fail": 0.8, "nops": (0, 3), "kinds": ["distribute", "distribute", "transfer"], "fail_kinds": ["distribute"], "p_dist_alias": 0.7,
-            "p_trough": 0.7, "devices": ["evo"]}
+            "p_trough": 0.7, "devices": ["evo", "evo", "fluent"]}
     progs = [G.gen_worklist_program(rng, prof) for _ in range(ctx.n(80))]
     stateful(ctx, res, "distribute-aliased-failing", progs, ["replay_safe"])
     progs = [gen_evo_program(rng, p_fail=0.6, fail_kinds=["toolarge", "toolarge", "limit", "order", "grid", "lc"]) for _ in range(ctx.n(150))]
@@ -738,11 +738,13 @@ def register(pid, run, **kw):
     PROPS[pid] = dict(run=run, **kw)
 
 
-register("C01", run_C01, module="Robotools.Props.C01",
+register("C01", run_C01, module="Robotools.Props.C01", extra_modules=["Robotools.Props.C01Dist"],
          theorems=["Robotools.C01." + t for t in ("replay_volumes", "match_vol", "record_address", "roundHalfEven_close", "render_vol_close",
                                                   "step_amounts", "replay_composition", "amount_well")]
                   + ["Robotools.Amt." + t for t in ("amtOf_amtMerge", "take_amt", "put_amt", "interp_asp_amt", "interp_disp_amt", "asp1", "disp1",
                                                     "ablock_pair", "ablock_compileTransfer", "compile_ablock", "amtOK_ofLabs")]
+                  + ["Robotools.C01D." + t for t in ("replay_volumes_dist", "srcOK_evo", "srcOK_fluent", "compile_safeD")]
+                  + ["Robotools.Dist." + t for t in ("safe_compileDistribute", "interp_rd", "go_spec", "dsts_eq", "addChecked_perm", "exec_ads")]
                   + ["Robotools.RP." + t for t in ("wellOf_pos", "interp_asp", "interp_disp", "asp_core", "disp_core", "compile_safe")],
          rule="generated worklist programs (1-8 ops, 1-3 labware); non-trivial = contains an accepted liquid-moving operation; distinct by canonical JSON")
 register("C02", run_C02, module="Robotools.Props.C02",
@@ -751,9 +753,10 @@ register("C02", run_C02, module="Robotools.Props.C02",
                    "compile_nonneg", "step_limits", "world_limits", "mk_valid", "trough_mk_valid")]
                   + ["Robotools.GenFns." + t for t in ("all_translated", "gen_add_step_spec", "gen_remove_step_spec", "gen_addStep_ok", "gen_removeStep_ok")],
          extra_modules=["Robotools.Proofs.GenFns"], rule="add/remove histories and worklist programs with boundary-biased volumes; rejected operations are followed by further operations")
-register("C03", run_C03, module="Robotools.Props.C03",
+register("C03", run_C03, module="Robotools.Props.C03", extra_modules=["Robotools.Props.C01Dist"],
          theorems=["Robotools.C03." + t for t in ("step_safe", "step_cfg", "step_wf", "abort_safe", "run_safe", "steps_bounded", "prepareAD_oversize", "pair_mem_plan_nosplit", "no_split_rejects")]
-                  + ["Robotools.RP." + t for t in ("safe_append", "safe_rm_emit", "safe_ad_emit", "safe_compileTransfer", "compile_safe", "within_compile", "recs_within_exec")],
+                  + ["Robotools.RP." + t for t in ("safe_append", "safe_rm_emit", "safe_ad_emit", "safe_compileTransfer", "compile_safe", "within_compile", "recs_within_exec")]
+                  + ["Robotools.C01D.abort_safe_dist", "Robotools.C01D.step_safeD", "Robotools.Dist.safe_compileDistribute", "Robotools.Dist.compileRD_cases"],
          rule="worklist programs whose last operation is built to fail at a chosen sub-step; records replayed after every operation")
 register("C04", run_C04, module="Robotools.Props.C04",
          theorems=["Robotools.C04." + t for t in ("micro_shape", "executed_prefix", "executed_all_of_ok", "exec_ledger", "exec_frame",
@@ -926,7 +929,9 @@ def run_C18(ctx):
             for mode in ("auto", "source", "destination", "rows", "", "Auto"):
                 S = mk("S", sk)
                 D = mk("D", dk)
-                ans = guarded(lambda: "ok " + optimize_partition_by(S, D, mode))
+                # the label only decorates a warning: whatever text it is, the decision is the same
+                lab = rng.choice([None, "", "wash", "Feed {glucose}", "}", "{", "{0} %s %(x)s", "50 % {}"])
+                ans = guarded(lambda: "ok " + (optimize_partition_by(S, D, mode) if lab is None else optimize_partition_by(S, D, mode, label=lab)))
                 want = None
                 if mode == "auto":
                     want = "ok destination" if (st and not dt) else "ok source"
@@ -936,7 +941,7 @@ def run_C18(ctx):
                 if (want is not None and ans != want) or (want is None and not ans.startswith("err")):
                     msg = f"optimize_partition_by(source={sk} (trough={st}), destination={dk} (trough={dt}), {mode!r}) = {ans}"
                 cases.append({"line": f"optimize {int(st)} {int(dt)} {proto.e_str(mode)}", "impl": ans,
-                              "case": {"kind": "fn", "fn": "optimize_partition_by", "src": sk, "dst": dk, "src_trough": st, "dst_trough": dt, "mode": mode},
+                              "case": {"kind": "fn", "fn": "optimize_partition_by", "src": sk, "dst": dk, "src_trough": st, "dst_trough": dt, "mode": mode, "label": lab},
                               "oracle": msg, "sig": "C18:optimize_partition_by"})
     fn_stream(ctx, res, "optimize_partition_by", cases)
     res.exhaustive = False
@@ -1300,8 +1305,21 @@ def run_C15(ctx):
         idsB = [[G.wid(r, c) for c in range(cB)] for r in range(rB)]
         direction = rng.choice(["shift", "unshift"])
         wells = pick_sub(rng, rA, cA, idsA) if direction == "shift" else pick_sub(rng, rB, cB, idsB)
+        # earlier calls on the same object (any direction, also wells of B outside the image of A, whose answers are
+        # not looked at): what the object answers afterwards must not depend on them
+        pre = []
+        if rng.random() < 0.5:
+            for _k in range(rng.randint(1, 3)):
+                d0 = rng.choice(["shift", "unshift", "unshift"])
+                pre.append((d0, pick_sub(rng, rA, cA, idsA) if d0 == "shift" else pick_sub(rng, rB, cB, idsB)))
+            res.dist["shifter: earlier calls on the same object"] += 1
         def call():
             sh = WellShifter((rA, cA), (rB, cB), anchor)
+            for d0, w0 in pre:
+                try:
+                    sh.shift(impl.arr_str(w0)) if d0 == "shift" else sh.unshift(impl.arr_str(w0))
+                except Exception:  # noqa: BLE001
+                    pass
             out = sh.shift(impl.arr_str(wells)) if direction == "shift" else sh.unshift(impl.arr_str(wells))
             return "ok " + arr_result(out)
         ans = guarded(call)
@@ -1326,7 +1344,7 @@ def run_C15(ctx):
                 if back != A(wells):
                     msg = "unshift(shift(x)) != x"
         cases.append({"line": f"shifter {rA} {cA} {rB} {cB} {proto.e_str(anchor)} {direction} {A(wells)}", "impl": ans,
-                      "case": {"kind": "fn", "fn": "shifter", "A": [rA, cA], "B": [rB, cB], "anchor": anchor, "dir": direction, "wells": wells},
+                      "case": {"kind": "fn", "fn": "shifter", "A": [rA, cA], "B": [rB, cB], "anchor": anchor, "dir": direction, "wells": wells, "earlier_calls_on_the_object": pre},
                       "oracle": msg, "sig": "C15:shifter"})
     for _ in range(ctx.n(300)):
         R, C = rng.randint(1, 16), rng.randint(1, 24)
@@ -1460,6 +1478,14 @@ def run_C17(ctx):
                         with wl2:
                             for r in recs:
                                 wl2.append(r)
+                            if abort is None and rng.random() < 0.4:
+                                # an explicit save inside the block, then (possibly) someone else replaces the file:
+                                # leaving the block must still write the records
+                                wl2.save(arg)
+                                res.dist["explicit save inside the with block"] += 1
+                                if rng.random() < 0.7:
+                                    path.write_bytes(rng.choice([b"FOREIGN\r\n" * 300, b"f", b""]))
+                                    res.dist["foreign overwrite between save and leaving the block"] += 1
                             if abort is not None:
                                 try:
                                     if how == "op":
@@ -1564,10 +1590,18 @@ def gen_ctor_spec(rng):
                 init = ("M", init[1], init[2], [v if i in keep else F(0) for i, v in enumerate(init[3])])
         flat = [F(0)] * n if init is None else [init[1]] * n if init[0] == "S" else list(init[1] if init[0] == "V" else init[3])
         names = {}
+        labname = rng.choice(["P", "plate 1", "µ"])
         for i in range(n):
             if flat[i] > 0 and rng.random() < 0.3:
                 names[G.wid(i // cols, i % cols)] = rng.choice(["water", "X", "dye", None])
-        spec = {"kind": "plate", "name": rng.choice(["P", "plate 1", "µ"]), "rows": rows, "cols": cols, "min": mn, "max": mx, "init": init, "names": names}
+        filled = [i for i in range(n) if flat[i] > 0]
+        if len(filled) >= 2 and rng.random() < 0.25:
+            # a user-chosen component name that coincides with the DEFAULT name of another (unnamed) filled well, or with
+            # the labware's name: the two wells then hold the same component
+            i, j = rng.sample(filled, 2)
+            names.pop(G.wid(j // cols, j % cols), None)
+            names[G.wid(i // cols, i % cols)] = rng.choice([f"{labname}.{G.wid(j // cols, j % cols)}", f"{labname}.{G.wid(j // cols, j % cols)}", labname])
+        spec = {"kind": "plate", "name": labname, "rows": rows, "cols": cols, "min": mn, "max": mx, "init": init, "names": names}
         if fault == "rows":
             spec["rows"] = rng.choice([0, -1, proto.Bad(2.5), proto.Bad("2")])
         elif fault == "cols":
